@@ -196,10 +196,16 @@ _WATER = []
 
 
 def translate_water():
+    """natural density of the solvent: the literal of nsf._D2O_slds as read by the translator; the
+    documented 0.9982 (water at 20 C) when the literal cannot be read"""
     if not _WATER:
+        from fractions import Fraction
         from ..translators.neutron import neutron_constants
-        c = neutron_constants()
-        _WATER.append(c["nsf_water"]["H"])
+        from ..translate import Unreadable
+        try:
+            _WATER.append(neutron_constants()["nsf_water"]["H"])
+        except Unreadable:
+            _WATER.append(Fraction("0.9982"))
     return _WATER[0]
 
 
@@ -275,14 +281,15 @@ def stage_fasta(run, pt, tl, quick):
             run.violation("fasta molecule %s: sld/Dsld differ from the H-/D-substituted SLDs of D2O_sld" % name,
                           inp, site="fasta-sld")
         real_grid = []
+        flagged = False
         for vf, d in GRID:
             a = float(m.D2Osld(volume_fraction=vf, D2O_fraction=d))
             b = float(nsf.D2O_sld(f, volume_fraction=vf, D2O_fraction=d)[0])
             real_grid.append(a)
-            if not tol_close(a, b, scale):
+            if not tol_close(a, b, scale) and not flagged:
+                flagged = True
                 run.violation("fasta molecule %s: D2Osld(%r, %r) = %r but D2O_sld gives %r" % (name, vf, d, a, b),
                               inp, site="fasta-d2osld")
-                break
         # correspondence
         mm = nc.parse_outcome(next(rep))
         if isinstance(mm, str) or not (tol_close(mm[0], m.sld, scale) and tol_close(mm[1], m.Dsld, scale)
